@@ -1109,6 +1109,15 @@ fn kill_keys(rng: &mut Rng, vi: bool, insert_mode: &mut bool, out: &mut Vec<Stri
             }
             return;
         }
+        if rng.chance(1, 12) {
+            // a line-wise kill that has nothing to remove (no line above / below), then a
+            // character delete, then a put: the failed kill must not leave the ring "killing"
+            out.push("64".to_string());
+            out.push(format!("{:02x}", *rng.pick(b"kj-+")));
+            out.push(format!("{:02x}", *rng.pick(b"xX")));
+            out.push(rng.pick(&["70", "50"]).to_string());
+            return;
+        }
         if rng.chance(4, 10) {
             // a run of kills with nothing in between (character searches in both directions
             // over-represented: their direction decides append / prepend; C-w / C-u / C-k / D are
